@@ -443,11 +443,12 @@ theorem handlerUpdate_eq (date : Str) (dirOps fileOps : List Target) (t : Tree) 
       updateFileGitignores (gitRules (handlerMid date dirOps t)) date (handlerFiles fileOps t) (handlerMid date dirOps t) := rfl
 
 /-- **Every materialised file is reported as a FILE operation, whether or not its parent directory had to be
-    created** — so that ignoring the file does not depend on what the handler decides about the directory.
+    created and whatever was at its path before** — so that ignoring the file does not depend on what the handler
+    decides about the directory, nor on an ignore line an earlier occupant of the path may or may not have had.
     Over the send sites regenerated from `recheck_from_cache`. -/
-theorem C16_materialised_file_always_gets_file_op (created : Bool) (x : Target) :
-    IgnoreOp.file x ∈ emittedOps Gen.RECHECK_IGNORE_SENDS created x :=
-  file_op_of_unconditional_site _ (by decide) created x
+theorem C16_materialised_file_always_gets_file_op (created : Bool) (prior : PriorEntry) (x : Target) :
+    IgnoreOp.file x ∈ emittedOps Gen.RECHECK_IGNORE_SENDS created prior x :=
+  file_op_of_unconditional_site _ (by decide) created prior x
 
 /-- **The handler ignores every file that was reported to it, whatever it does with the directory operations**
     (written, or dropped because xvc's matcher does not answer `NoMatch` for the directory).  Excluded regions
@@ -500,8 +501,9 @@ theorem C16_handler_ignores_reported_file (date : Str) (dirOps fileOps : List Ta
 
 /-- both together: a file materialised by a command is ignored afterwards, parent directory created or not,
     directory line written or dropped -/
-theorem C16_materialised_file_ignored (date : Str) (xs : List (Target × Bool)) (t : Tree) (x : Target) (created : Bool)
-    (hx : (x, created) ∈ xs) (hdir : (contentAt x.dir t).isSome = true)
+theorem C16_materialised_file_ignored (date : Str) (xs : List (Target × Bool × PriorEntry)) (t : Tree) (x : Target)
+    (created : Bool) (prior : PriorEntry)
+    (hx : (x, created, prior) ∈ xs) (hdir : (contentAt x.dir t).isSome = true)
     (hd : '\n' ∉ date)
     (hdn : ∀ y ∈ opDirs (materialiseOps Gen.RECHECK_IGNORE_SENDS xs), '\n' ∉ y.name)
     (hfn : ∀ y ∈ opFiles (materialiseOps Gen.RECHECK_IGNORE_SENDS xs), '\n' ∉ y.name) (ht : NoLoneCR t)
@@ -517,7 +519,7 @@ theorem C16_materialised_file_ignored (date : Str) (xs : List (Target × Bool)) 
   rw [mem_opFiles]
   unfold materialiseOps
   rw [List.mem_flatMap]
-  exact ⟨(x, created), hx, C16_materialised_file_always_gets_file_op created x⟩
+  exact ⟨(x, created, prior), hx, C16_materialised_file_always_gets_file_op created prior x⟩
 
 /-- non-vacuity, scenario s1 of seeded defect C16-4: the user's `.gitignore` re-includes `datasets` by name; a
     tracked file is copied into `datasets/`, which has just been created.  The handler drops the `IgnoreDir`
@@ -529,15 +531,15 @@ example :
     let t : Tree := .node "*.tmp\n!/datasets\n".toList [] [("datasets".toList, .node [] [] [])]
     let x : Target := ⟨["datasets".toList], "train.bin".toList⟩
     let oneOp : List SendSite := [⟨.ignoreDir, .parentCreated⟩, ⟨.ignoreFile, .other⟩]
-    emittedOps Gen.RECHECK_IGNORE_SENDS true x = [.dir ⟨[], "datasets".toList⟩, .file x] ∧
+    emittedOps Gen.RECHECK_IGNORE_SENDS true .absent x = [.dir ⟨[], "datasets".toList⟩, .file x] ∧
     check (gitRules t) (Target.pathStr ⟨[], "datasets".toList⟩) = .whitelist ∧
     check (gitRules t) x.pathStr = .noMatch ∧
-    contentAt [] (materialiseUpdate Gen.RECHECK_IGNORE_SENDS "D".toList [(x, true)] t) = some "*.tmp\n!/datasets\n".toList ∧
-    contentAt ["datasets".toList] (materialiseUpdate Gen.RECHECK_IGNORE_SENDS "D".toList [(x, true)] t) =
+    contentAt [] (materialiseUpdate Gen.RECHECK_IGNORE_SENDS "D".toList [(x, true, .absent)] t) = some "*.tmp\n!/datasets\n".toList ∧
+    contentAt ["datasets".toList] (materialiseUpdate Gen.RECHECK_IGNORE_SENDS "D".toList [(x, true, .absent)] t) =
       some "### Following 1 lines are added by xvc on D\n/train.bin\n".toList ∧
-    gitIgnored (materialiseUpdate Gen.RECHECK_IGNORE_SENDS "D".toList [(x, true)] t) ["datasets".toList, "train.bin".toList] false = true ∧
-    emittedOps oneOp true x = [.dir ⟨[], "datasets".toList⟩] ∧
-    gitIgnored (materialiseUpdate oneOp "D".toList [(x, true)] t) ["datasets".toList, "train.bin".toList] false = false := by decide
+    gitIgnored (materialiseUpdate Gen.RECHECK_IGNORE_SENDS "D".toList [(x, true, .absent)] t) ["datasets".toList, "train.bin".toList] false = true ∧
+    emittedOps oneOp true .absent x = [.dir ⟨[], "datasets".toList⟩] ∧
+    gitIgnored (materialiseUpdate oneOp "D".toList [(x, true, .absent)] t) ["datasets".toList, "train.bin".toList] false = false := by decide
 
 /-- non-vacuity, scenario s2: no user pattern; the tracked file `latest` gave the root the line `/latest`, which
     xvc's matcher applies at any depth (K12): the `IgnoreDir` for the new directory `runs/latest` is dropped, the
@@ -547,8 +549,111 @@ example :
     let x : Target := ⟨["runs".toList, "latest".toList], "weights.bin".toList⟩
     check (gitRules t) (Target.pathStr ⟨["runs".toList], "latest".toList⟩) = .ignore ∧
     gitIgnored t ["runs".toList, "latest".toList] true = false ∧
-    gitIgnored (materialiseUpdate Gen.RECHECK_IGNORE_SENDS "D".toList [(x, true)] t)
+    gitIgnored (materialiseUpdate Gen.RECHECK_IGNORE_SENDS "D".toList [(x, true, .absent)] t)
       ["runs".toList, "latest".toList, "weights.bin".toList] false = true := by decide
+
+/-! ## materialisation ONTO an existing workspace entry: the operation does not depend on what was there
+
+  `recheck_from_cache` deletes whatever sits at the destination ("If the file already exists, we delete it") and
+  puts the cached content there.  `xvc file copy --force` reaches it with a destination that exists: a file made
+  by hand (never tracked, never ignored), a path that was tracked and then untracked or whose ignore line the
+  user deleted, a symlink / hardlink of an earlier materialisation; a file destination or the path computed under
+  a directory destination.  The path is a tracked data file from now on, so it needs its line NOW — "a replaced
+  path got its rule when it was put there the first time" is wrong for every one of those.  (`recheck`/`carry_in`
+  remove the target themselves first and arrive with `absent`.) -/
+
+/-- the send sites of the unchanged code do not look at the destination -/
+theorem recheck_sends_ignore_prior : ∀ s ∈ Gen.RECHECK_IGNORE_SENDS, s.guard ≠ .destAbsent := by decide
+
+/-- **The ignore operations, and hence the `.gitignore` files afterwards, are the same for every prior state of
+    the destination path (absent / a file / a live link / a dangling link), and the path is ignored by git
+    afterwards in every one of them** — for every workspace `t` (so: whether or not the name is among the entries
+    of its directory, whatever the `.gitignore` files say about it), parent directory created or not.  Excluded
+    regions as everywhere (K6b literal name, K6a not whitelisted, K12 xvc's "already ignored" agrees with git). -/
+theorem C16_ignore_op_independent_of_prior_entry (date : Str) (t : Tree) (x : Target) (created : Bool) (prior : PriorEntry)
+    (hdir : (contentAt x.dir t).isSome = true)
+    (hd : '\n' ∉ date) (hxn : '\n' ∉ x.name) (hpn : ∀ d ∈ (parentTarget x).toList, '\n' ∉ d.name) (ht : NoLoneCR t)
+    (hK6b : PlainName x.name)
+    (hK6a0 : check (gitRules t) x.pathStr ≠ .whitelist)
+    (hK12_0 : check (gitRules t) x.pathStr = .ignore → gitIgnored t (x.dir ++ [x.name]) false = true)
+    (hK6a1 : check (gitRules (handlerMid date (opDirs (emittedOps Gen.RECHECK_IGNORE_SENDS created .absent x)) t)) x.pathStr ≠ .whitelist)
+    (hK12_1 : check (gitRules (handlerMid date (opDirs (emittedOps Gen.RECHECK_IGNORE_SENDS created .absent x)) t)) x.pathStr = .ignore →
+      gitIgnored (handlerMid date (opDirs (emittedOps Gen.RECHECK_IGNORE_SENDS created .absent x)) t) (x.dir ++ [x.name]) false = true) :
+    emittedOps Gen.RECHECK_IGNORE_SENDS created prior x = emittedOps Gen.RECHECK_IGNORE_SENDS created .absent x ∧
+    materialiseUpdate Gen.RECHECK_IGNORE_SENDS date [(x, created, prior)] t =
+      materialiseUpdate Gen.RECHECK_IGNORE_SENDS date [(x, created, .absent)] t ∧
+    gitIgnored (materialiseUpdate Gen.RECHECK_IGNORE_SENDS date [(x, created, prior)] t) (x.dir ++ [x.name]) false = true := by
+  have e : emittedOps Gen.RECHECK_IGNORE_SENDS created prior x = emittedOps Gen.RECHECK_IGNORE_SENDS created .absent x :=
+    emittedOps_prior_irrelevant _ recheck_sends_ignore_prior created prior .absent x
+  have m : materialiseOps Gen.RECHECK_IGNORE_SENDS [(x, created, prior)] = emittedOps Gen.RECHECK_IGNORE_SENDS created .absent x := by
+    simp [materialiseOps, e]
+  have m0 : materialiseOps Gen.RECHECK_IGNORE_SENDS [(x, created, PriorEntry.absent)] = emittedOps Gen.RECHECK_IGNORE_SENDS created .absent x := by
+    simp [materialiseOps]
+  refine ⟨e, by unfold materialiseUpdate; rw [m, m0], ?_⟩
+  have hops : ∀ o ∈ emittedOps Gen.RECHECK_IGNORE_SENDS created .absent x,
+      o = .file x ∨ ∃ d ∈ (parentTarget x).toList, o = .dir d := by
+    intro o ho
+    cases created <;> simp [emittedOps, Gen.RECHECK_IGNORE_SENDS] at ho
+    · exact Or.inl ho
+    · rcases ho with ⟨d, hd', rfl⟩ | rfl
+      · exact Or.inr ⟨d, by simp [hd'], rfl⟩
+      · exact Or.inl rfl
+  apply C16_materialised_file_ignored date [(x, created, prior)] t x created prior (List.mem_singleton.2 rfl) hdir hd
+  · intro y hy
+    rw [m] at hy
+    unfold opDirs at hy
+    obtain ⟨o, ho, hoy⟩ := List.mem_filterMap.1 hy
+    rcases hops o ho with rfl | ⟨d, hd', rfl⟩
+    · simp at hoy
+    · simp at hoy; subst hoy; exact hpn _ hd'
+  · intro y hy
+    rw [m] at hy
+    rw [mem_opFiles] at hy
+    rcases hops _ hy with h | ⟨d, _, h⟩
+    · cases h; exact hxn
+    · cases h
+  · exact ht
+  · exact hK6b
+  · exact hK6a0
+  · exact hK12_0
+  · rw [m]; exact hK6a1
+  · rw [m]; exact hK12_1
+
+/-- the send sites of the rejected variant (NOT the code): the file is reported only when nothing was at the
+    destination — "a replaced path got its rule when it was put there the first time" -/
+def sendOnlyWhenAbsent : List SendSite := [⟨.ignoreDir, .parentCreated⟩, ⟨.ignoreFile, .destAbsent⟩]
+
+/-- **Counterexample for the guard `if !replaced`**: `out/model-copy.bin` is a file the user made by hand, known
+    neither to xvc nor to any `.gitignore`; `xvc file copy --force data/model.bin out/model-copy.bin` makes it a
+    tracked data file.  With the guarded send nothing is emitted, nothing is written, git does not ignore the
+    tracked file (same for a live link at the destination); the target is outside every excluded region (xvc's
+    matcher: `NoMatch`, literal name).  With nothing at the destination the guarded variant behaves like the code. -/
+theorem C16_send_only_when_absent_counterexample :
+    let t : Tree := .node [] [] [("out".toList, .node [] ["model-copy.bin".toList] [])]
+    let x : Target := ⟨["out".toList], "model-copy.bin".toList⟩
+    check (gitRules t) x.pathStr = .noMatch ∧ PlainName x.name ∧ (contentAt x.dir t).isSome = true ∧
+    emittedOps sendOnlyWhenAbsent false .file x = [] ∧
+    allContents [] (materialiseUpdate sendOnlyWhenAbsent "D".toList [(x, false, .file)] t) = allContents [] t ∧
+    gitIgnored (materialiseUpdate sendOnlyWhenAbsent "D".toList [(x, false, .file)] t) ["out".toList, "model-copy.bin".toList] false = false ∧
+    gitIgnored (materialiseUpdate sendOnlyWhenAbsent "D".toList [(x, false, .link)] t) ["out".toList, "model-copy.bin".toList] false = false ∧
+    gitIgnored (materialiseUpdate sendOnlyWhenAbsent "D".toList [(x, false, .absent)] t) ["out".toList, "model-copy.bin".toList] false = true := by decide
+
+/-- non-vacuity of `C16_ignore_op_independent_of_prior_entry`, same input, the send sites of the code: for every
+    prior state of the destination the file operation is emitted, `out/.gitignore` gets `/model-copy.bin`, git
+    ignores the path; second scenario of the seeded change: directory destination `out/`, computed path
+    `out/data/weights.bin` where a hand-made file sits -/
+example :
+    let t : Tree := .node [] [] [("out".toList, .node [] ["model-copy.bin".toList] [("data".toList, .node [] ["weights.bin".toList] [])])]
+    let x : Target := ⟨["out".toList], "model-copy.bin".toList⟩
+    let y : Target := ⟨["out".toList, "data".toList], "weights.bin".toList⟩
+    gitIgnored t ["out".toList, "model-copy.bin".toList] false = false ∧
+    (∀ prior ∈ PriorEntry.all,
+      emittedOps Gen.RECHECK_IGNORE_SENDS false prior x = [.file x] ∧
+      contentAt ["out".toList] (materialiseUpdate Gen.RECHECK_IGNORE_SENDS "D".toList [(x, false, prior)] t) =
+        some "### Following 1 lines are added by xvc on D\n/model-copy.bin\n".toList ∧
+      gitIgnored (materialiseUpdate Gen.RECHECK_IGNORE_SENDS "D".toList [(x, false, prior)] t) ["out".toList, "model-copy.bin".toList] false = true ∧
+      gitIgnored (materialiseUpdate Gen.RECHECK_IGNORE_SENDS "D".toList [(y, false, prior)] t) ["out".toList, "data".toList, "weights.bin".toList] false = true) ∧
+    gitIgnored (materialiseUpdate sendOnlyWhenAbsent "D".toList [(y, false, .file)] t) ["out".toList, "data".toList, "weights.bin".toList] false = false := by decide
 
 /-! ## the append primitive
 
@@ -774,6 +879,10 @@ open Ign.Git in
 #print axioms C16_handler_ignores_reported_file
 open Ign.Git in
 #print axioms C16_materialised_file_ignored
+open Ign.Git in
+#print axioms C16_ignore_op_independent_of_prior_entry
+open Ign.Git in
+#print axioms C16_send_only_when_absent_counterexample
 open Ign.Git in
 #print axioms C16_whitelisted_counterexample
 open Ign.Git in
